@@ -79,12 +79,27 @@ SHARDS.update({
 ALSO_SERVES = {
     "C08": ["module:contracts.C16_focuslist"],      # container contents are MonitoredFocusLists: focus validity after edits
     "C12": ["urwid/display/_raw_display_base.py:Screen.parse_input", "urwid/display/_raw_display_base.py:Screen.get_available_raw_input"],
-    "C01": ["urwid/widget/scrollable.py:Scrollable.render", "urwid/widget/scrollable.py:Scrollable._adjust_trim_top", "urwid/widget/scrollable.py:ScrollBar.render"],
+    "C01": ["urwid/widget/listbox.py:ListBox.render", "urwid/widget/listbox.py:ListBox.render#empty",  # a box widget like any other
+            "urwid/widget/listbox.py:ListBox.calculate_visible", "urwid/widget/listbox.py:ListBox.calculate_visible#empty",
+            "urwid/widget/scrollable.py:Scrollable.render", "urwid/widget/scrollable.py:Scrollable._adjust_trim_top", "urwid/widget/scrollable.py:ScrollBar.render"],
     "C07": ["module:contracts.C08_listbox",        # ListBox focus handling
-            "module:contracts.C16_focuslist"],     # "insertions or deletions in the list": SimpleFocusListWalker is a MonitoredFocusList
+            "module:contracts.C16_focuslist",      # "insertions or deletions in the list": SimpleFocusListWalker is a MonitoredFocusList
+            # "rendering a ListBox never raises": the item canvases are padded / trimmed / combined with these
+            "urwid/canvas.py:CompositeCanvas.trim#real-fields", "urwid/canvas.py:CompositeCanvas.trim_end#real-fields",
+            "urwid/canvas.py:CompositeCanvas.pad_trim_left_right#real-fields", "urwid/canvas.py:CompositeCanvas.pad_trim_top_bottom#real-fields"],
     "C20": ["urwid/canvas.py:cview_trim_top", "urwid/canvas.py:cview_trim_rows", "urwid/canvas.py:cview_trim_cols", "urwid/canvas.py:cview_trim_left"],  # the slice a Scrollable shows is cut with these
-    "C10": ["module:contracts.C14_signals"],       # 'change' / 'postchange' are delivered by Signals.emit / _call_callback
-    "C06": ["urwid/canvas.py:CompositeCanvas.trim#real-fields", "urwid/canvas.py:CompositeCanvas.trim_end#real-fields",
+    "C10": ["module:contracts.C14_signals",        # 'change' / 'postchange' are delivered by Signals.emit / _call_callback
+            # "never inside a multi-byte character", "move by one character": the character stepping of str_util
+            "urwid/str_util.py:move_prev_char", "urwid/str_util.py:move_next_char", "urwid/str_util.py:decode_one",
+            "urwid/str_util.py:within_double_byte", "urwid/str_util.py:is_wide_char"],
+    "C09": [  # "reported cursor == cursor of the focused rendering" also needs the rendering to be the current one: every
+              # mutator of a container that moves the focus or the contents invalidates (static effect obligations of C06)
+            "effects:urwid.widget.frame.Frame", "effects:urwid.widget.pile.Pile", "effects:urwid.widget.columns.Columns",
+            "effects:urwid.widget.overlay.Overlay", "effects:urwid.widget.padding.Padding", "effects:urwid.widget.filler.Filler",
+            "effects:urwid.widget.grid_flow.GridFlow", "effects:urwid.widget.box_adapter.BoxAdapter", "effects:urwid.widget.listbox.ListBox"],       # 'change' / 'postchange' are delivered by Signals.emit / _call_callback
+    "C06": ["module:contracts.C16_focuslist",      # the 'modified' callback of a contents list is what invalidates its container
+            "urwid/widget/listbox.py:ListBox.shift_focus",  # (clause `invalidated`)
+            "urwid/canvas.py:CompositeCanvas.trim#real-fields", "urwid/canvas.py:CompositeCanvas.trim_end#real-fields",
             # a cached (finalized) canvas refuses to be padded / trimmed, and padding a wrapper never writes to the lists it shares with the cached canvas
             "urwid/canvas.py:CompositeCanvas.pad_trim_left_right#real-fields", "urwid/canvas.py:CompositeCanvas.pad_trim_top_bottom#real-fields"],
     "C17": ["urwid/display/common.py:AttrSpec.__init__", "urwid/display/common.py:AttrSpec.__set_background"],
